@@ -531,6 +531,63 @@ theorem crash_multi_redb_protocol_partial {α C σ ε : Type} [DecidableEq C] (H
         runAbs ((redbBackend H fuel dec plan hplan).view d) eff :=
   crash_multi_partial _ (redb_protocol_atomic H hinj fuel dec plan hplan) d d' incs hl
 
+section RedbProtocolStore
+open Lumina.Model Lumina.Model.Store Lumina.Model.CrashRedb
+open Lumina.Proofs.Store Lumina.Proofs.CrashRedb
+open Lumina.Model.RedbCommit Lumina.Proofs.RedbCommit
+
+/-- **C22 for the redb store model ON the redb protocol model**: S3's `redb_crash_reopen_partial`
+    (store operations of C19–C21, `RedbStore::new` on reopen, index consistency) with the
+    backend instantiated by the commit-protocol model — no `AtomicDurableCommit` hypothesis;
+    `dec` decodes tree content into the logical database `Db`, `plan`/`hplan` stand for redb's
+    B-tree + allocator layer. -/
+theorem redb_store_on_protocol_partial {α C : Type} [DecidableEq C] (H : Sums α C)
+    (hinj : Function.Injective H.page) (fuel : Nat) (dec : List α → Db)
+    (plan : Disk α C → Db → Plan α C)
+    (hplan : ∀ d, Clean H fuel d → ∀ w, PlanOK H fuel dec d w (plan d w))
+    (v : Hdr → Hdr → Bool) (name : Hash → String) (parent : Hdr → Hash) (hlink : HashLinked v parent)
+    (d₀ : RD H fuel) (id0 : Nat) (hid : id0 ≠ 0)
+    (hd₀ : (redbBackend H fuel dec plan hplan).view d₀ = CrashRedb.fresh id0)
+    (ops : List Store.Op) (hw : AllWf ops) (hvr : ValidRun v Lumina.Spec.C19.init ops)
+    (d' : RD H fuel) (n : Nat)
+    (hc : CrashImage (redbBackend H fuel dec plan hplan) d₀ (ops.map (txOf v)) d' n) (newId : Nat) :
+    (reopen (redbBackend H fuel dec plan hplan) (openTx newId) d').2 = .ok () ∧
+    ∃ k, n ≤ k ∧ k ≤ n + 1 ∧ k ≤ ops.length ∧
+      (redbBackend H fuel dec plan hplan).view (reopen (redbBackend H fuel dec plan hplan) (openTx newId) d').1 =
+        ⟨id0, (runOps (RedbStore.step v) RedbStore.new (ops.take k)).1⟩ ∧
+      StoreConsistent v name parent
+        ((redbBackend H fuel dec plan hplan).view (reopen (redbBackend H fuel dec plan hplan) (openTx newId) d').1) :=
+  redb_crash_reopen_partial _ (redb_protocol_atomic H hinj fuel dec plan hplan) v name parent hlink
+    d₀ id0 hid hd₀ ops hw hvr d' n hc newId
+end RedbProtocolStore
+
+/-- **The page-allocation hypothesis has content.**  A transaction that overwrites a page
+    reachable from the committed root (violating `PlanOK.free`; everything else as in the
+    theorem: clean medium, newer transaction id, the new roots verify and hold the new state
+    once all pages are written, collision-free checksums) is NOT crash-atomic: if the page write
+    survives and the header write does not, recovery finds the committed tree broken, falls back
+    to the older slot, and shows the EMPTY database — neither the committed `[1,2,3]` nor the
+    new `[9]`. -/
+theorem redb_protocol_inplace_counterexample :
+    Clean Example.sums 1 Example.disk1 ∧
+    verify Example.sums 1 Example.disk1 Example.disk1.primary = some [[1, 2, 3]] ∧
+    (Example.disk1.slots Example.disk1.primary).txid < Example.inPlace.txid ∧
+    readRoots Example.sums (applyAll Example.disk1 Example.inPlace.pageWrites).pages 1 Example.inPlace.roots = some [[9]] ∧
+    ∃ x, CrashImg Example.disk1 (commitEpochs Example.sums Example.disk1 Example.inPlace false) x ∧
+      recover Example.sums 1 x = some [] := by
+  have hv : verify Example.sums 1 Example.disk1 Example.disk1.primary = some [[1, 2, 3]] := by
+    simp [verify, Example.disk1, mkSlot, readRoots, readKids, readTree, Example.sums]
+  refine ⟨⟨?_, ⟨_, hv⟩, ?_⟩, hv, ?_, ?_, applyAll Example.disk1 [.page 1 ⟨[9], []⟩], ?_, ?_⟩
+  · simp [Example.disk1, Slot.corrupted, mkSlot]
+  · right; left; simp [Example.disk1, mkSlot]
+  · simp [Example.disk1, Example.inPlace, mkSlot]
+  · simp [Example.disk1, Example.inPlace, Plan.pageWrites, applyAll, Write.apply, readRoots, readKids, readTree, Example.sums]
+  · left
+    refine ⟨1, _, ?_, rfl⟩
+    simp [Example.inPlace, Plan.pageWrites]
+  · simp [applyAll, Write.apply, Example.disk1, recover, recoverSlot, pickPrimary, verify, mkSlot, Slot.corrupted,
+      readRoots, readKids, readTree, Example.sums]
+
 /-! ### non-vacuity: the hypotheses (i)–(iii) are satisfiable, concrete crash images -/
 
 /-- a collision-free checksum, a planner meeting `PlanOK` on every clean medium, a clean medium -/
